@@ -33,6 +33,12 @@ var c03IdentityFuncs = map[string]bool{
 	"pkg/api.outputAliasesInput": true, "pkg/api.outputAliasesInputWith": true, "os.SameFile": true,
 }
 
+var c03WholePathFuncs = map[string]bool{
+	"path/filepath.Clean": true, "path/filepath.Abs": true, "path/filepath.EvalSymlinks": true, "path/filepath.ToSlash": true,
+	"path/filepath.FromSlash": true, "path.Clean": true, "strings.ToLower": true, "strings.ToUpper": true, "strings.TrimSpace": true,
+	"strings.ToValidUTF8": true, "golang.org/x/text/unicode/norm.Form.String": true,
+}
+
 // derivesStr: v is the parameter or a string computed from it by strings / path / filepath functions.
 func derivesStr(v ssa.Value, prm *ssa.Parameter, d int) bool {
 	if v == nil || d > 4 {
@@ -44,7 +50,8 @@ func derivesStr(v ssa.Value, prm *ssa.Parameter, d int) bool {
 	switch x := v.(type) {
 	case *ssa.Call:
 		_, ref := callRef(x)
-		if strings.HasPrefix(ref, "strings.") || strings.HasPrefix(ref, "path.") || strings.HasPrefix(ref, "path/filepath.") {
+		// whole-path transformations only: comparing extensions or base names is not an identity decision
+		if c03WholePathFuncs[ref] {
 			for _, a := range x.Call.Args {
 				if derivesStr(a, prm, d+1) {
 					return true
